@@ -216,8 +216,23 @@ func runC25(c *engine.Ctx) {
 							}
 						}
 					}
-					key := fmt.Sprintf("%s|%s", engine.FuncName(loop), engine.FuncName(lit))
+					// keyed by the loop, the named function the transaction is written in and the positive-size builder
+					// methods it uses (not by the literal's ordinal, which shifts when an unrelated literal is added)
+					outer := lit
+					for outer.Parent() != nil {
+						outer = outer.Parent()
+					}
 					sort.Strings(bad)
+					var ms []string
+					for _, b := range bad {
+						ms = append(ms, strings.SplitN(b, " ", 2)[0])
+					}
+					key := fmt.Sprintf("%s|%s|transaction", engine.FuncName(loop), engine.FuncName(outer))
+					if len(ms) > 0 {
+						key += " using " + strings.Join(ms, ",")
+					} else {
+						key += "@" + engine.FuncName(lit)
+					}
 					c.Decide(r1, key, ci.Instr.Pos(), len(bad) == 0,
 						"the transaction queues only zero-size operations: its reservation cannot wait",
 						fmt.Sprintf("a transaction on the shared loop %s calls %s, whose size can be positive: the loop blocks in AllocateBlockMemory until that one peer's allowance frees, stalling every other peer (path: %s)",
